@@ -191,7 +191,7 @@ Section Protocol.
     cbn [fst snd] in *. constructor.
     - cbn [snd]. (* clause 5: the outcome is the plain operation's, which is never RecursionError *)
       unfold law_step in Hlaw.
-      destruct (plain (snap_of md va vb) o) as [expected target] eqn:Hp.
+      destruct (plain (edges_of md) (snap_of md va vb) o) as [expected target] eqn:Hp.
       repeat (apply app_eq_nil in Hlaw; destruct Hlaw as [? Hlaw]).
       match goal with H : chk 5 _ = [] |- _ => unfold chk in H;
         destruct (outcome_eqb (ob_out ob) expected) eqn:Ho; [|discriminate H] end.
@@ -203,6 +203,8 @@ Section Protocol.
       + destruct (sval _ _) as [[z|l]|]; try discriminate Hp.
         destruct (mutate l m) as [[l' oev]|e] eqn:Hm; [discriminate Hp|].
         injection Hp as -> _. apply mutate_raises in Hm. destruct Hm; discriminate.
+      + destruct (sval _ _); try discriminate Hp.
+        match type of Hp with (if ?c then _ else _) = _ => destruct c; discriminate Hp end.
     - rewrite (state_eta _ _ _ _ Hs Hov). apply IH; assumption.
   Qed.
 End Protocol.
@@ -261,8 +263,10 @@ Definition clause7 (ob : obs) : bool := forallb (forallb (fun c => c <=? 1)) (ob
 Lemma law_step_clauses E before o ob :
   law_step E before o ob = [] ->
   let E' := edges_after E o in
-  let '(expected, target) := plain before o in
+  let '(expected, target) := plain E before o in
   (* 1 *) forallb (fun e => negb (has_edge (snd e, fst e) E')
+                           || negb (Bool.eqb (is_list_name (snd (fst e))) (is_list_name (snd (snd e))))
+                           || is_any_name (snd (fst e)) || is_any_name (snd (snd e))
                            || (has_edge e E && has_edge (snd e, fst e) E
                                && negb (oval_eqb (sval before (fst e)) (sval before (snd e))))
                            || oval_eqb (sval (ob_vals ob) (fst e)) (sval (ob_vals ob) (snd e))) E' = true /\
@@ -275,7 +279,7 @@ Lemma law_step_clauses E before o ob :
   (* 7 *) clause7 ob = true /\
   (* 8 *) match target with Some (x, v) => sval (ob_vals ob) x = Some v | None => True end.
 Proof.
-  unfold law_step. destruct (plain before o) as [expected target]. intros H.
+  unfold law_step. destruct (plain E before o) as [expected target]. intros H.
   repeat (apply app_eq_nil in H; let H1 := fresh "C" in destruct H as [H1 H]).
   apply chk_nil in C, C2, C3, C4, C5, H.
   repeat split; auto.
@@ -310,7 +314,7 @@ Section ProtocolSteps.
     intros Hi Ha. eapply Forall_impl; [|apply protocol_steps; eassumption].
     intros [o ob] (E & before & Hl). cbn [fst snd] in *.
     pose proof (law_step_clauses _ _ _ _ Hl) as Hc. cbn zeta in Hc.
-    destruct (plain before o). destruct Hc as (_ & _ & _ & H6 & H7 & _). auto.
+    destruct (plain E before o). destruct Hc as (_ & _ & _ & H6 & H7 & _). auto.
   Qed.
 End ProtocolSteps.
 
@@ -332,7 +336,11 @@ Proof.
   - apply oval_eqb_eq in C0. contradiction.
   - unfold succs in C0. cbn [edges_of filter fst snd node_eqb key_eqb map] in C0.
     unfold node_eqb, key_eqb in C0. cbn [fst snd] in C0. rewrite !Nat.eqb_refl in C0.
-    cbn in C0. rewrite andb_true_r in C0. apply oval_eqb_eq in C0. exact C0.
+    cbn [andb map snd forallb] in C0. rewrite andb_true_r in C0.
+    (* the target's trait is of the source's kind, so it accepts v *)
+    assert (is_any_name m = false /\ kind_ok m v = true) as [Ha Hkm].
+    { destruct Hi as (_ & _ & Hl). clear - Hl Hk. names_cases n m Hl; destruct v; cbn in *; auto; discriminate. }
+    rewrite Ha, Hkm in C0. cbn [negb orb] in C0. apply oval_eqb_eq in C0. exact C0.
 Qed.
 (* the reverse direction is inert: nothing done to object 1 reaches object 0 *)
 Lemma oneway_reverse_inert F n m va vb nts o :
@@ -351,7 +359,7 @@ Proof.
     - destruct Ho as [-> ?]. apply oneway_assign; auto.
     - destruct Ho as (-> & ? & ?). apply oneway_mut; auto. }
   pose proof (law_step_clauses _ _ _ _ Hlaw) as Hc. cbn zeta in Hc.
-  destruct (plain (snap_of (MOneway n m) va vb) o) as [expected target] eqn:Hp.
+  destruct (plain (edges_of (MOneway n m)) (snap_of (MOneway n m) va vb) o) as [expected target] eqn:Hp.
   destruct Hc as (_ & C4 & _).
   rewrite forallb_forall in C4.
   specialize (C4 (0%nat, j)). 
